@@ -228,3 +228,50 @@ pub struct Violation {
     pub detail: String,
     pub t: Ms,
 }
+
+pub fn fmt_ev(e: &Ev) -> String {
+    match e {
+        Ev::Send { t, src, dst, bytes, outcome, ord, .. } => format!(
+            "t={t:>9} SEND  {src} -> {dst} #{ord} {:?} {}",
+            outcome,
+            show_bytes(bytes)
+        ),
+        Ev::Deliver { t, src, dst, bytes, dst_kind, copy, .. } => format!(
+            "t={t:>9} DELIV {src} -> {dst} ({dst_kind:?}, copy {copy}) {}",
+            show_bytes(bytes)
+        ),
+        Ev::Api { t, step, ev } => {
+            let s = format!("{ev:?}");
+            format!("t={t:>9} API   step {step}: {}", if s.len() > 600 { &s[..600] } else { &s })
+        }
+        Ev::Fault { t, what } => format!("t={t:>9} FAULT {what}"),
+        Ev::Invariant { t, node, clause, detail } => {
+            format!("t={t:>9} INVARIANT {node} {clause}: {detail}")
+        }
+    }
+}
+
+pub fn show_bytes(b: &[u8]) -> String {
+    match crate::krpc::Msg::parse(b) {
+        Some(m) => {
+            let mut s = format!("{} t={}", m.tag(), crate::krpc::hex(&m.t));
+            if let Some(r) = m.resp() {
+                if let Some(v) = r.get("values").and_then(crate::krpc::parse_values) {
+                    s.push_str(&format!(" values={v:?}"));
+                }
+                for k in ["nodes", "nodes6"] {
+                    if let Some(n) = r.get(k).and_then(|x| x.as_bytes()) {
+                        s.push_str(&format!(" {k}={}B", n.len()));
+                    }
+                }
+                if r.get("token").is_some() {
+                    s.push_str(" +token");
+                }
+            }
+            s.push_str(&format!(" [{}B]", b.len()));
+            s
+        }
+        None => format!("?? {}B {}", b.len(), crate::krpc::hex(&b[..b.len().min(24)])),
+    }
+}
+
